@@ -158,6 +158,7 @@ PROPS = {
     "C02": {
         "harnesses": [
             {"pkg": "bt", "name": "VH_C02_Preimage", "quick": {"params": {"IN": 2, "OUT": 2, "S": 1}}, "thorough": {"params": {"IN": 3, "OUT": 3, "S": 1, "SCBIG": 1}}},
+            {"pkg": "bt", "name": "VH_C02_History", "quick": {"params": {"IN": 2, "OUT": 2, "S": 0}}, "thorough": {"params": {"IN": 2, "OUT": 2, "S": 0, "ALLHT": 1}}},
         ],
         "validate_tests": [{"pkg": "bt", "run": "TestVerifRefValidate"}],
         "assumptions": [],
@@ -165,6 +166,7 @@ PROPS = {
     "C03": {
         "harnesses": [
             {"pkg": "bt", "name": "VH_C03_Legacy", "quick": {"params": {"IN": 2, "OUT": 2, "S": 1}}, "thorough": {"params": {"IN": 3, "OUT": 3, "S": 1, "SCBIG": 1}}},
+            {"pkg": "bt", "name": "VH_C03_History", "quick": {"params": {"IN": 2, "OUT": 2, "S": 0}}, "thorough": {"params": {"IN": 2, "OUT": 2, "S": 0, "ALLHT": 1}}},
         ],
         "validate_tests": [{"pkg": "bt", "run": "TestVerifRefValidate"}],
         "assumptions": [],
